@@ -26,6 +26,8 @@ Rules applied to extracted text (recorded in evidence as coverage.extraction.dro
   7 (opt-in) `for P in E` -> `for P in it: E` (names the iterator so an invariant can mention it)
   8 (per item, `| noattrs attrs=..`) the attribute list of an item is replaced (derive lists naming traits of opaque types)
   9 (opt-in, `assoc X`) `Self::X` in a fn taken from a trait impl -> the impl's `type X = T` right-hand side
+ 10 (opt-in, `unpin_receiver`) `self: Pin<&mut Self>` -> `&mut self`; `let this = Pin::into_inner(self);` deleted and the
+    alias `this` renamed to `self`
 """
 import hashlib
 import json
@@ -183,6 +185,7 @@ def build(template_path, repo, out_path, drop_tags=()):
             rel, path = parts[0], parts[1:]
             ret = None
             assoc = None
+            unpin = False
             tailc = False
             contract = []
             loopspec = {}
@@ -201,6 +204,8 @@ def build(template_path, repo, out_path, drop_tags=()):
                         tailc = True
                     elif d.startswith("assoc "):
                         assoc = d[6:].strip()
+                    elif d == "unpin_receiver":
+                        unpin = True
                     elif d.startswith("name "):
                         oname = d[5:].strip()
                     elif d.startswith("loop "):
@@ -262,6 +267,32 @@ def build(template_path, repo, out_path, drop_tags=()):
                     if ltoks[k2].t == "Self" and ltoks[k2 + 1].t == "::" and ltoks[k2 + 2].t == assoc:
                         edits.append((ltoks[k2].s, ltoks[k2 + 2].e, rhs))
                         unit.drops["assoc_types_substituted"] = unit.drops.get("assoc_types_substituted", 0) + 1
+            if unpin:
+                # rule 10: receiver `self: Pin<&mut Self>` -> `&mut self`; the alias statement
+                # `let this = Pin::into_inner(self);` is deleted and every identifier token `this` becomes `self`.
+                # Same program for `Self: Unpin` (Pin<&mut T> is then a plain wrapper around &mut T and `this` is just
+                # another name for `self`).  Needed because Verus has no old()/final() for a pinned receiver and loses
+                # the link between `self` and a reborrow of it across a loop.  Both patterns must occur exactly once.
+                want1 = ["self", ":", "Pin", "<", "&", "mut", "Self", ">"]
+                want2 = ["let", "this", "=", "Pin", "::", "into_inner", "(", "self", ")", ";"]
+                h1 = [k for k in range(len(ltoks) - len(want1) + 1) if [t.t for t in ltoks[k:k + len(want1)]] == want1]
+                h2 = [k for k in range(len(ltoks) - len(want2) + 1) if [t.t for t in ltoks[k:k + len(want2)]] == want2]
+                if len(h1) != 1 or len(h2) != 1:
+                    raise ExtractError("rule 10: expected exactly one `self: Pin<&mut Self>` and one `let this = Pin::into_inner(self);`")
+                removed = [(e0, e1) for (e0, e1, _) in edits]
+                edits.append((ltoks[h1[0]].s, ltoks[h1[0] + len(want1) - 1].e, "&mut self"))
+                edits.append((ltoks[h2[0]].s, ltoks[h2[0] + len(want2) - 1].e, ""))
+                nren = 0
+                for k, t in enumerate(ltoks):
+                    if t.k == "id" and t.t == "this" and not (h2[0] <= k < h2[0] + len(want2)):
+                        if any(e0 <= t.s and t.e <= e1 for (e0, e1) in removed):
+                            continue      # inside a dropped tracing invocation
+                        if k > 0 and ltoks[k - 1].t == "let":
+                            raise ExtractError("rule 10: `this` is re-bound")
+                        edits.append((t.s, t.e, "self"))
+                        nren += 1
+                unit.drops["pinned_receivers_unwrapped"] = unit.drops.get("pinned_receivers_unwrapped", 0) + 1
+                unit.drops["alias_this_renamed_to_self"] = unit.drops.get("alias_this_renamed_to_self", 0) + nren
             if ret:
                 if arrow is None:
                     raise ExtractError(f"`{path[-1]}`: ret named but fn has no return type")
